@@ -135,8 +135,8 @@ TOther ==
   /\ UNCHANGED <<cfg, logs, startAt, deliv, icount, phase, viol>>
 
 TPanic ==
-  /\ E.ev = "panic"
-  /\ viol' = viol \cup V("no_panic")
+  /\ E.ev \in {"panic", "bad_request"}
+  /\ viol' = viol \cup (IF E.ev = "panic" THEN V("no_panic") ELSE V("wire_request_decodes"))
   /\ stats' = Tick
   /\ UNCHANGED <<cfg, logs, startAt, deliv, icount, phase>>
 
